@@ -22,7 +22,7 @@ PART = {
     obligations=["Carquet.Properties.C11." + t for t in (
         "C11_varint_roundtrip", "C11_zigzag_roundtrip", "C11_bitpack_roundtrip", "C11_unpack_special_eq_general",
         "C11_rle_roundtrip", "C11_rle_levels_roundtrip", "C11_rle_stream_eq_oneshot",
-        "C11_regression_F1", "C11_regression_F30", "C11_regression_F32", "C11_regression_F33")],
+        "C11_regression_F1", "C11_regression_F30", "C11_regression_F32", "C11_regression_F33", "C11_regression_F58")],
     rule="rle: regression witnesses (F1 F30 F31 F32 F33) first; varint boundaries of every byte length + random + "
          "arbitrary bytes; pack8/unpack8 at every width 0..32 x fill kinds, pack/unpack with tails n=0..18 (40); "
          "exhaustive: all sequences of length <= 8 (thorough 12) over {0,1} at width 1 through encode_all and "
